@@ -68,4 +68,185 @@ theorem prevote_grant_sound (v : Vol) (q : VoteReq) (t : Nat) (h : preVoteResp v
   all_goals simp_all [upToDate]
   all_goals omega
 
+
+
+/-- a stale-term AppendEntries is refused without touching anything -/
+theorem ae_stale_term_inert (cf : Cfg) (d : Durable) (v : Vol) (a : AEReq) (f c : Option Nat) (h : a.term < v.term) :
+    (exec (aePlan cf d v a) f c).2 = [] ∧ (exec (aePlan cf d v a) f c).1.vol = v ∧
+    (exec (aePlan cf d v a) f c).1.resp = .append v.term (lastIndex v) false false := by
+  have hp : aePlan cf d v a = ⟨[], mkRes (.append v.term (lastIndex v) false false) v⟩ := by
+    simp [aePlan, h]
+  rw [hp]
+  simp only [exec, Plan.writes, List.map_nil, List.length_nil, List.getElem?_nil]
+  repeat' split
+  all_goals simp_all [mkRes]
+
+/-- an InstallSnapshot the server is already past (by what it has applied, or because it holds the
+    snapshot's last entry) is acknowledged without any durable write and without touching the FSM -/
+theorem install_covered_inert (cf : Cfg) (d : Durable) (v : Vol) (q : ISReq)
+    (ht : q.term = v.term) (h : q.lastIdx ≤ v.applied ∨ holdsEntry d { v with leader := q.leader, leaderId := q.leaderId } q.lastIdx q.lastTerm = true) :
+    (isPlan cf d v q).steps = [] ∧ (isPlan cf d v q).final.fsm = [] ∧
+    (isPlan cf d v q).final.resp = .install v.term true false ∧
+    (isPlan cf d v q).final.vol = { v with leader := q.leader, leaderId := q.leaderId } := by
+  have h1 : ¬ q.term < v.term := by omega
+  have h2 : ¬ q.term > v.term := by omega
+  simp only [isPlan, h1, h2, if_false]
+  rcases h with h | h
+  · simp [h, mkRes]
+  · simp [h, mkRes]
+
+
+/-- `exec` either runs the whole plan or stops at a step, returning that step's response -/
+theorem exec_cases (p : Plan) (f c : Option Nat) :
+    exec p f c = (p.final, p.writes) ∨
+    ∃ k w r, p.steps[k]? = some (w, r) ∧ (exec p f c).1.resp = r.resp ∧ (exec p f c).1.vol = r.vol ∧
+      (exec p f c).2 = p.writes.take k := by
+  unfold exec
+  simp only []
+  split
+  · left; rfl
+  · rename_i k isCrash _
+    split
+    · rename_i w r hs
+      right
+      refine ⟨k, w, r, hs, ?_, ?_, rfl⟩ <;> (by_cases hc : isCrash <;> simp [hc])
+    · left; rfl
+
+/-- every step of a vote plan answers "not granted" -/
+theorem votePlan_steps_refuse (d : Durable) (v : Vol) (q : VoteReq) :
+    ∀ s ∈ (votePlan d v q).steps, ∀ t, s.2.resp ≠ .vote t true := by
+  intro s hs t
+  unfold votePlan at hs
+  simp only [] at hs
+  repeat' (split at hs)
+  all_goals simp_all [mkRes]
+  all_goals (rcases hs with hs | hs | hs <;> (try subst hs) <;> simp_all [mkRes])
+
+
+/-- what a granting *final* result of a vote plan implies about the request and the pre-state -/
+theorem votePlan_final_granted (d : Durable) (v : Vol) (q : VoteReq) (t : Nat)
+    (h : (votePlan d v q).final.resp = .vote t true) :
+    v.term ≤ q.term ∧ t = q.term ∧
+    upToDate q.lastIdx q.lastTerm (lastEntry v).1 (lastEntry v).2 = true ∧
+    (q.candId ≠ 0 → v.latest ≠ [] → hasVote v.latest q.candId = true) ∧
+    (v.leader = 0 ∨ v.leader = q.cand ∨ q.transfer = true) ∧
+    ((d.voteTerm = q.term ∧ d.voteCand = some q.cand) ∨
+     (applyAll d (votePlan d v q).writes).voteTerm = q.term ∧ (applyAll d (votePlan d v q).writes).voteCand = some q.cand) := by
+  have hle : lastEntry (stepDown v q.term) = lastEntry v := by simp [lastEntry, stepDown]
+  have hv1t : (if q.term > v.term then stepDown v q.term else v).term = (if q.term > v.term then q.term else v.term) := by
+    by_cases hg : q.term > v.term <;> simp [hg, stepDown]
+  have hv1e : lastEntry (if q.term > v.term then stepDown v q.term else v) = lastEntry v := by
+    by_cases hg : q.term > v.term <;> simp [hg, hle]
+  unfold votePlan at h
+  simp only [] at h
+  split at h
+  · simp [mkRes] at h
+  rename_i g1
+  split at h
+  · simp [mkRes] at h
+  rename_i g2
+  split at h
+  · simp [mkRes] at h
+  rename_i g3
+  split at h
+  · simp [mkRes] at h
+  rename_i g4
+  rw [hv1e] at h
+  have hvoter : q.candId ≠ 0 → v.latest ≠ [] → hasVote v.latest q.candId = true := by
+    intro a b
+    by_cases hv : hasVote v.latest q.candId = true
+    · exact hv
+    · exact absurd ⟨a, b, hv⟩ g4
+  have hleader : v.leader = 0 ∨ v.leader = q.cand ∨ q.transfer = true := by
+    by_cases a : v.leader = 0
+    · left; exact a
+    · by_cases b : v.leader = q.cand
+      · right; left; exact b
+      · right; right
+        by_cases c : q.transfer = true
+        · exact c
+        · exact absurd ⟨a, b, c⟩ g2
+  split at h
+  · simp [mkRes] at h
+  rename_i g5
+  split at h
+  · simp [mkRes] at h
+  rename_i g6
+  have hup : upToDate q.lastIdx q.lastTerm (lastEntry v).1 (lastEntry v).2 = true := by
+    simp only [upToDate, Bool.or_eq_true, decide_eq_true_eq, Bool.and_eq_true, beq_iff_eq]
+    by_cases e : (lastEntry v).2 = q.lastTerm
+    · right; refine ⟨e.symm, ?_⟩
+      have : ¬ (lastEntry v).1 > q.lastIdx := fun x => g6 ⟨e, x⟩
+      omega
+    · left; omega
+  have hterm : v.term ≤ q.term := by omega
+  split at h
+  · rename_i g7
+    simp only [mkRes, Resp.vote.injEq, hv1t] at h
+    have hc : d.voteCand = some q.cand := by simpa using h.2
+    refine ⟨hterm, ?_, hup, hvoter, hleader, Or.inl ⟨g7.1, hc⟩⟩
+    by_cases hg : q.term > v.term
+    · simp [hg] at h; exact h.1.symm
+    · simp [hg] at h; omega
+  · rename_i g7
+    simp only [mkRes, Resp.vote.injEq, hv1t, and_true] at h
+    refine ⟨hterm, ?_, hup, hvoter, hleader, Or.inr ?_⟩
+    · by_cases hg : q.term > v.term
+      · simp [hg] at h; exact h.symm
+      · simp [hg] at h; omega
+    · unfold votePlan
+      simp only []
+      rw [if_neg g1, if_neg g2, if_neg g3, if_neg g4, hv1e, if_neg g5, if_neg g6, if_neg g7]
+      by_cases hg : q.term > v.term <;> simp [hg, applyAll, Write.apply, Plan.writes]
+
+
+/-- **C06, one handler, every failure ordinal and crash ordinal.**  If RequestVote answers
+    "granted" then: the request's term is at least the server's and is the term answered; the
+    candidate's log is at least as up to date as the server's last entry; when the request names its
+    sender and a configuration is known, the sender is a voter of it; no other leader is known
+    (unless the request is a leadership transfer); every planned write was performed, and the durable
+    vote record names exactly this term and this candidate — the grant is on disk before it is
+    answered. -/
+theorem vote_grant_sound (d : Durable) (v : Vol) (q : VoteReq) (f c : Option Nat) (t : Nat)
+    (h : (exec (votePlan d v q) f c).1.resp = .vote t true) :
+    v.term ≤ q.term ∧ t = q.term ∧
+    upToDate q.lastIdx q.lastTerm (lastEntry v).1 (lastEntry v).2 = true ∧
+    (q.candId ≠ 0 → v.latest ≠ [] → hasVote v.latest q.candId = true) ∧
+    (v.leader = 0 ∨ v.leader = q.cand ∨ q.transfer = true) ∧
+    (applyAll d (exec (votePlan d v q) f c).2).voteTerm = q.term ∧
+    (applyAll d (exec (votePlan d v q) f c).2).voteCand = some q.cand := by
+  rcases exec_cases (votePlan d v q) f c with hfin | ⟨k, w, r, hs, hr, _, _⟩
+  · rw [hfin] at h ⊢
+    obtain ⟨a, b, c', d', e, g⟩ := votePlan_final_granted d v q t h
+    refine ⟨a, b, c', d', e, ?_⟩
+    rcases g with ⟨g1, g2⟩ | g
+    · -- the record was already there: the plan writes at most the term
+      -- (no vote write), so the record is unchanged
+      have hnw : ∀ w ∈ (votePlan d v q).writes, (∃ x, w = .setTerm x) ∨ w = .setVoteTerm q.term ∨ w = .setVoteCand q.cand := by
+        intro w hw
+        unfold votePlan at hw
+        simp only [] at hw
+        repeat' (split at hw)
+        all_goals simp_all [Plan.writes]
+        all_goals (rcases hw with hw | hw | hw <;> simp_all)
+      -- applying such writes keeps (voteTerm, voteCand) = (q.term, some q.cand)
+      have keep : ∀ (ws : List Write) (d0 : Durable), d0.voteTerm = q.term → d0.voteCand = some q.cand →
+          (∀ w ∈ ws, (∃ x, w = .setTerm x) ∨ w = .setVoteTerm q.term ∨ w = .setVoteCand q.cand) →
+          (applyAll d0 ws).voteTerm = q.term ∧ (applyAll d0 ws).voteCand = some q.cand := by
+        intro ws
+        induction ws with
+        | nil => intro d0 h1 h2 _; exact ⟨h1, h2⟩
+        | cons w ws ih =>
+          intro d0 h1 h2 hall
+          simp only [applyAll, List.foldl_cons]
+          apply ih
+          · rcases hall w List.mem_cons_self with ⟨x, rfl⟩ | rfl | rfl <;> simp [Write.apply, h1]
+          · rcases hall w List.mem_cons_self with ⟨x, rfl⟩ | rfl | rfl <;> simp [Write.apply, h2]
+          · intro w' hw'; exact hall w' (List.mem_cons_of_mem _ hw')
+      exact keep _ d g1 g2 hnw
+    · exact g
+  · exfalso
+    rw [hr] at h
+    exact votePlan_steps_refuse d v q (w, r) (List.mem_of_getElem? hs) t h
+
 end SV
